@@ -49,6 +49,7 @@ func runC15(c *Ctx, tier string) {
 	c13SourceList(c, r)
 	namesToMap(c, r, "names-validated")
 	c13FilterUses(c, r)
+	c13NameList(c, r, BuildCensus(c))
 	r.Finish()
 }
 
@@ -697,6 +698,24 @@ func c15Summary(c *Ctx, r *Report) {
 		}
 		if countMap == nil {
 			bad = "resultCount is not allocated in newRT: counts accumulate across calls"
+			continue
+		}
+		// every path walks results.Results (a shortcut that skips the walk when some
+		// summary flag is clear leaves results of the other levels uncounted)
+		entered := false
+		var under []string
+		for _, cd := range o.Conds {
+			ts := cd.T.String()
+			if strings.Contains(ts, "range("+res+".Results)") {
+				entered = true
+			} else if strings.Contains(ts, "len("+res+".Results)") && (cd.Val && (strings.HasSuffix(ts, "== 0)") || strings.HasSuffix(ts, "< 1)")) || !cd.Val && (strings.HasSuffix(ts, "!= 0)") || strings.HasSuffix(ts, "> 0)") || strings.HasPrefix(ts, "(0 <"))) {
+				entered = true // nothing to walk on this path
+			} else {
+				under = append(under, fmt.Sprintf("%v=%v", cd.T, cd.Val))
+			}
+		}
+		if !entered && o.Kind != "cut" {
+			bad = "a path through newRT returns without walking Results (when " + trimStr(strings.Join(under, ", "), 200) + "): results are left uncounted"
 			continue
 		}
 		// iterations over results.Results
